@@ -4,7 +4,8 @@ package main
 //   nsqd/protocol_v2.go  Exec (dispatch rows + position of the enforceTLSPolicy gate),
 //                        enforceTLSPolicy and CheckAuth (guard shape, error returns),
 //                        SUB / PUB / MPUB / DPUB (ordered event summaries)
-//   nsqd/nsqd.go         Main (how each HTTP listener's server is wired)
+//   nsqd/nsqd.go         Main (how each HTTP listener's server is wired, which listener each server is
+//                        served on), every write of httpListener / httpsListener (New: the condition)
 //   nsqd/http.go         newHTTPServer (field wiring), httpServer.ServeHTTP (the 403 guard)
 // go/ast only; nothing is evaluated.
 
@@ -125,7 +126,7 @@ func gateExecTable(p *pkg) ([]gateRow, error) {
 		return nil, fmt.Errorf("protocolV2.Exec not found")
 	}
 	var rows []gateRow
-	gateVar := ""    // variable holding the result of enforceTLSPolicy
+	gateVar := ""     // variable holding the result of enforceTLSPolicy
 	gateDone := false // its error has been returned
 	var walk func(stmts []ast.Stmt)
 	walk = func(stmts []ast.Stmt) {
@@ -381,6 +382,181 @@ func gateCtorOK(p *pkg) bool {
 	return okE && okR
 }
 
+// opts.<Name> != ""
+func gateAddrSet(e ast.Expr) (string, bool) {
+	be, ok := e.(*ast.BinaryExpr)
+	if !ok || be.Op != token.NEQ {
+		return "", false
+	}
+	lit, ok := be.Y.(*ast.BasicLit)
+	if !ok || lit.Kind != token.STRING || lit.Value != `""` {
+		return "", false
+	}
+	sel, ok := be.X.(*ast.SelectorExpr)
+	if !ok {
+		return "", false
+	}
+	if id, ok := sel.X.(*ast.Ident); !ok || id.Name != "opts" {
+		return "", false
+	}
+	return sel.Sel.Name, true
+}
+
+func gateLexp(p *pkg, e ast.Expr) string {
+	if e == nil {
+		return "(LOther \"unconditional\")"
+	}
+	if pe, ok := e.(*ast.ParenExpr); ok {
+		return gateLexp(p, pe.X)
+	}
+	if o, ok := gateAddrSet(e); ok {
+		return "(LAddr " + gateCoqStr(o) + ")"
+	}
+	if be, ok := e.(*ast.BinaryExpr); ok && be.Op == token.LAND {
+		if l, ok := be.X.(*ast.BinaryExpr); ok && l.Op == token.NEQ && gateEndsWithSel(l.X, "tlsConfig") {
+			if id, ok := l.Y.(*ast.Ident); ok && id.Name == "nil" {
+				if o, ok := gateAddrSet(be.Y); ok {
+					return "(LTlsAndAddr " + gateCoqStr(o) + ")"
+				}
+			}
+		}
+	}
+	return "(LOther " + gateCoqStr(gateSrc(p, e)) + ")"
+}
+
+// every assignment to a field httpListener / httpsListener in package nsqd: the function,
+// the condition of the innermost enclosing if (none: LOther), and whether the value is
+// tls.Listen(..., n.tlsConfig).  A write that is not a Listen call is reported with LOther.
+func gateListens(p *pkg) []string {
+	var out []string
+	for _, fn := range p.fileNames() {
+		for _, d := range p.files[fn].Decls {
+			fd, ok := d.(*ast.FuncDecl)
+			if !ok || fd.Body == nil {
+				continue
+			}
+			ast.Inspect(fd.Body, func(n ast.Node) bool {
+				as, ok := n.(*ast.AssignStmt)
+				if !ok {
+					return true
+				}
+				for _, l := range as.Lhs {
+					var field string
+					switch {
+					case gateEndsWithSel(l, "httpListener"):
+						field = "httpListener"
+					case gateEndsWithSel(l, "httpsListener"):
+						field = "httpsListener"
+					default:
+						continue
+					}
+					var cond ast.Expr
+					depth := 0
+					ast.Inspect(fd.Body, func(m ast.Node) bool {
+						is, ok := m.(*ast.IfStmt)
+						if !ok || is.Body.Pos() > as.Pos() || is.Body.End() < as.End() {
+							return true
+						}
+						depth++
+						cond = is.Cond
+						return true
+					})
+					lexp := gateLexp(p, cond)
+					if depth != 1 {
+						lexp = "(LOther " + gateCoqStr(fmt.Sprintf("nested in %d conditions", depth)) + ")"
+					}
+					isTLS := false
+					if len(as.Rhs) == 1 {
+						if call, ok := as.Rhs[0].(*ast.CallExpr); ok && gateCallName(call) == "Listen" {
+							if sel, ok := call.Fun.(*ast.SelectorExpr); ok {
+								if id, ok := sel.X.(*ast.Ident); ok && id.Name == "tls" && len(call.Args) == 3 && gateEndsWithSel(call.Args[2], "tlsConfig") {
+									isTLS = true
+								} else if !ok || id.Name != "net" {
+									lexp = "(LOther " + gateCoqStr(gateSrc(p, as)) + ")"
+								}
+							}
+						} else {
+							lexp = "(LOther " + gateCoqStr(gateSrc(p, as)) + ")"
+						}
+					} else {
+						lexp = "(LOther " + gateCoqStr(gateSrc(p, as)) + ")"
+					}
+					out = append(out, fmt.Sprintf("mkListen %s %s %s %v", gateCoqStr(field), gateCoqStr(fd.Name.Name), lexp, isTLS))
+				}
+				return true
+			})
+		}
+	}
+	return out
+}
+
+// NSQD.Main: every Serve(n.<listener>, <server>, ...) with the listener of the enclosing
+// if n.X != nil and the listener of the block whose newHTTPServer result <server> is
+func gateServes(p *pkg) []string {
+	fd := p.method("NSQD", "Main")
+	if fd == nil {
+		return nil
+	}
+	guardOf := func(n ast.Node) string {
+		listener := "?"
+		ast.Inspect(fd.Body, func(m ast.Node) bool {
+			is, ok := m.(*ast.IfStmt)
+			if !ok || is.Body.Pos() > n.Pos() || is.Body.End() < n.End() {
+				return true
+			}
+			if be, ok := is.Cond.(*ast.BinaryExpr); ok && be.Op == token.NEQ {
+				if sel, ok := be.X.(*ast.SelectorExpr); ok {
+					listener = sel.Sel.Name
+				}
+			} else {
+				listener = "?" + gateSrc(p, is.Cond)
+			}
+			return true
+		})
+		return listener
+	}
+	// server variable -> guard of the block in which it is assigned from newHTTPServer
+	built := map[string]string{}
+	ast.Inspect(fd.Body, func(n ast.Node) bool {
+		as, ok := n.(*ast.AssignStmt)
+		if !ok || len(as.Lhs) != 1 || len(as.Rhs) != 1 {
+			return true
+		}
+		call, ok := as.Rhs[0].(*ast.CallExpr)
+		if !ok || gateCallName(call) != "newHTTPServer" {
+			return true
+		}
+		if id, ok := as.Lhs[0].(*ast.Ident); ok {
+			if _, dup := built[id.Name]; dup {
+				built[id.Name] = "?assigned twice"
+			} else {
+				built[id.Name] = guardOf(as)
+			}
+		}
+		return true
+	})
+	var out []string
+	ast.Inspect(fd.Body, func(n ast.Node) bool {
+		call, ok := n.(*ast.CallExpr)
+		if !ok || gateCallName(call) != "Serve" || len(call.Args) < 2 {
+			return true
+		}
+		passed := "?" + gateSrc(p, call.Args[0])
+		if sel, ok := call.Args[0].(*ast.SelectorExpr); ok {
+			passed = sel.Sel.Name
+		}
+		of := "?" + gateSrc(p, call.Args[1])
+		if id, ok := call.Args[1].(*ast.Ident); ok {
+			if g, ok := built[id.Name]; ok {
+				of = g
+			}
+		}
+		out = append(out, fmt.Sprintf("mkServe %s %s %s", gateCoqStr(guardOf(call)), gateCoqStr(passed), gateCoqStr(of)))
+		return true
+	})
+	return out
+}
+
 func gateIsNot(e ast.Expr, field string) bool {
 	u, ok := e.(*ast.UnaryExpr)
 	return ok && u.Op == token.NOT && gateEndsWithSel(u.X, field)
@@ -539,7 +715,6 @@ func gateCallersOf(p *pkg, callee string) []string {
 	}
 	return out
 }
-
 
 // the topic and channel arguments of the (first) CheckAuth call of a handler, identifiers
 // resolved through their := definition in the handler
@@ -716,6 +891,8 @@ func genGate(repo string) (string, error) {
 	fmt.Fprintf(&sb, "(* NSQD.Main: newHTTPServer(n, tlsEnabled, tlsRequired) per listener *)\nDefinition http_wirings : list http_wiring := [\n  %s\n].\n", strings.Join(ws, ";\n  "))
 	fmt.Fprintf(&sb, "Definition http_ctor_stores_params : bool := %v.\n", gateCtorOK(p))
 	fmt.Fprintf(&sb, "Definition servehttp_guard : guard_shape := %s.\n", gateServeGuard(p))
+	fmt.Fprintf(&sb, "(* every write of NSQD.httpListener / httpsListener in package nsqd *)\nDefinition http_listens : list http_listen := [\n  %s\n].\n", strings.Join(gateListens(p), ";\n  "))
+	fmt.Fprintf(&sb, "(* NSQD.Main: Serve(listener, server) calls *)\nDefinition http_serves : list http_serve := [\n  %s\n].\n", strings.Join(gateServes(p), ";\n  "))
 	sb.WriteString("\n(* internal/auth/authorizations.go *)\n")
 	if err := gateAuthShapes(repo, &sb); err != nil {
 		return "", err
